@@ -1,34 +1,39 @@
 (* drv_C01.ml — driver: runs the extracted C01 model (Kalman correction) on the
-   case file given on stdin.  Operands: H (m x n), R (m x m), y (m x 1),
-   means (n x comps), covs (n x n*comps). *)
+   case file given on stdin.  A case has `steps` successive corrections; the
+   model is a pure function of each step's operands (H_s<t>, R_s<t>, y_s<t>,
+   means_s<t>, covs_s<t>), so every step is evaluated on its own. *)
 let () =
   let cases = Caseio.read_records "case" stdin in
   List.iter
     (fun (c : Caseio.case) ->
-      let h = Caseio.get_mat c "H" and r = Caseio.get_mat c "R" and y = Caseio.get_mat c "y" in
-      let means = Caseio.get_mat c "means" and covs = Caseio.get_mat c "covs" in
-      let n = Array.length means and m = Array.length h in
-      let comps = mat_cols means in
-      let cs =
-        List.init comps (fun i -> (lmx_of_mat (mat_col means i), lmx_of_mat (mat_block_cols covs (i * n) n)))
-      in
-      let res = c01_run fops (nat_of_int n) (nat_of_int m) (lmx_of_mat h) (lmx_of_mat r) (lmx_of_mat y) cs in
-      let spec = c01_spec fops (nat_of_int n) (nat_of_int m) (lmx_of_mat h) (lmx_of_mat r) (lmx_of_mat y) cs in
+      let steps = (try Caseio.meta_int c "steps" with _ -> 1) in
       Caseio.out_begin c.id;
-      Caseio.out_int "components" (List.length res);
-      List.iteri
-        (fun i ((((mean, cov), innov), py), lik) ->
-          Caseio.out_mat (Printf.sprintf "mean%d" i) (mat_of_lmx mean);
-          Caseio.out_mat (Printf.sprintf "cov%d" i) (mat_of_lmx cov);
-          Caseio.out_mat (Printf.sprintf "innov%d" i) (mat_of_lmx innov);
-          Caseio.out_mat (Printf.sprintf "Py%d" i) (mat_of_lmx py);
-          Caseio.out_num (Printf.sprintf "lik%d" i) (fl lik))
-        res;
-      List.iteri
-        (fun i ((mean, cov), lik) ->
-          Caseio.out_mat (Printf.sprintf "spec_mean%d" i) (mat_of_lmx mean);
-          Caseio.out_mat (Printf.sprintf "spec_cov%d" i) (mat_of_lmx cov);
-          Caseio.out_num (Printf.sprintf "spec_lik%d" i) (fl lik))
-        spec;
+      for t = 0 to steps - 1 do
+        let s = Printf.sprintf "_s%d" t in
+        let h = Caseio.get_mat c ("H" ^ s) and r = Caseio.get_mat c ("R" ^ s) and y = Caseio.get_mat c ("y" ^ s) in
+        let means = Caseio.get_mat c ("means" ^ s) and covs = Caseio.get_mat c ("covs" ^ s) in
+        let n = Array.length means and m = Array.length h in
+        let comps = mat_cols means in
+        let cs =
+          List.init comps (fun i -> (lmx_of_mat (mat_col means i), lmx_of_mat (mat_block_cols covs (i * n) n)))
+        in
+        let res = c01_run fops (nat_of_int n) (nat_of_int m) (lmx_of_mat h) (lmx_of_mat r) (lmx_of_mat y) cs in
+        let spec = c01_spec fops (nat_of_int n) (nat_of_int m) (lmx_of_mat h) (lmx_of_mat r) (lmx_of_mat y) cs in
+        Caseio.out_int ("components" ^ s) (List.length res);
+        List.iteri
+          (fun i ((((mean, cov), innov), py), lik) ->
+            Caseio.out_mat (Printf.sprintf "mean%d%s" i s) (mat_of_lmx mean);
+            Caseio.out_mat (Printf.sprintf "cov%d%s" i s) (mat_of_lmx cov);
+            Caseio.out_mat (Printf.sprintf "innov%d%s" i s) (mat_of_lmx innov);
+            Caseio.out_mat (Printf.sprintf "Py%d%s" i s) (mat_of_lmx py);
+            Caseio.out_num (Printf.sprintf "lik%d%s" i s) (fl lik))
+          res;
+        List.iteri
+          (fun i ((mean, cov), lik) ->
+            Caseio.out_mat (Printf.sprintf "spec_mean%d%s" i s) (mat_of_lmx mean);
+            Caseio.out_mat (Printf.sprintf "spec_cov%d%s" i s) (mat_of_lmx cov);
+            Caseio.out_num (Printf.sprintf "spec_lik%d%s" i s) (fl lik))
+          spec
+      done;
       Caseio.out_end ())
     cases
